@@ -307,6 +307,17 @@ func zvC26Scenarios() []zvScenario {
 			},
 		}
 	})
+	mkFrom("R15 policy replace (import, export)||metrics||peer list", []string{evT15, evOpen, evKA, evUpd1}, func(s *zvSess) []func() {
+		ip := zvPeerIP(s.cfg.A)
+		return []func(){
+			func() {
+				s.w.srv.ReplaceImportFilterChain(s.w.vrf, ip, filter.NewDrainFilterChain())
+				s.w.srv.ReplaceExportFilterChain(s.w.vrf, ip, filter.NewDrainFilterChain())
+			},
+			func() { s.w.srv.Metrics() },
+			func() { s.w.srv.GetPeers(); s.w.srv.GetPeerConfig(s.w.vrf, ip) },
+		}
+	})
 	mk("R5 stop||metrics", func(s *zvSess) []func() {
 		return []func(){func() { s.pA.stop() }, func() { s.w.srv.Metrics() }, func() { s.w.srv.GetPeers() }}
 	})
